@@ -68,8 +68,7 @@ def export_to_geff(
         )
     else:
         axis_types = None
-    if tracks.scale is None:
-        tracks.scale = (1.0,) * tracks.ndim
+    scale = tracks.scale if tracks.scale is not None else (1.0,) * tracks.ndim
 
     metadata = GeffMetadata(
         geff_version=geff_spec.__version__,
@@ -145,7 +144,7 @@ def export_to_geff(
         metadata=metadata,
         axis_names=axis_names,
         axis_types=axis_types,
-        axis_scales=tracks.scale,
+        axis_scales=scale,
         overwrite=overwrite,
         zarr_format=zarr_format,
     )
